@@ -190,7 +190,7 @@ func genKeyTable() string {
 		{"types/collectiontype.go", "CollectionType"}, {"types/notundeftype.go", "NotUndefType"}, {"types/sensitivetype.go", "SensitiveType"},
 		{"types/iterabletype.go", "IterableType"}, {"types/iteratortype.go", "IteratorType"}, {"types/regexptype.go", "RegexpType"}, {"types/patterntype.go", "PatternType"},
 		{"types/typereferencetype.go", "TypeReferenceType"}, {"types/semvertype.go", "SemVerType"}, {"types/hashtype.go", "HashType"}, {"types/liketype.go", "LikeType"},
-		{"types/callabletype.go", "CallableType"}, {"types/runtimetype.go", "RuntimeType"}, {"types/structtype.go", "StructType"},
+		{"types/callabletype.go", "CallableType"}, {"types/runtimetype.go", "RuntimeType"}, {"types/structtype.go", "StructType"}, {"types/inittype.go", "InitType"},
 	}
 	b.WriteString("\n/-- the string literal each `XxxType.Name()` returns -/\ndef typeNames : List (String × String) := [\n")
 	for i, r := range nameRows {
